@@ -5,6 +5,7 @@ import (
 	"fmt"
 	"os"
 	"strconv"
+	"strings"
 
 	"github.com/frankkopp/FrankyGo/internal/movegen"
 	"github.com/frankkopp/FrankyGo/internal/position"
@@ -246,6 +247,53 @@ func c17Cases(args []string) int {
 		rep.Cases++
 	}
 	w.WriteString("].\nDefinition M := Eval vm_compute in (enc_mismatches cases).\nPrint M.\n")
+	// notation: (fen, string, is_san, observed 16-bit code or 0)
+	w.WriteString("From FG Require Import CasesNotation.\nFrom Coq Require Import String.\nOpen Scope string_scope.\n")
+	w.WriteString("Definition ncases : list (string * string * bool * N) := [\n")
+	wk := NewWalker(rng)
+	mgn := movegen.NewMoveGen()
+	firstn := true
+	emit := func(fen, str string, isSan bool, got Move) {
+		if strings.ContainsAny(str, "\"\\") {
+			return
+		}
+		if !firstn {
+			w.WriteString(";\n")
+		}
+		firstn = false
+		fmt.Fprintf(w, "(\"%s\",\"%s\",%v,%d%%N)", fen, str, isSan, uint32(got.MoveOf()))
+		rep.Cases++
+	}
+	npos := 0
+	wk.Stream(n/4+40, true, func(g GamePos) {
+		if npos >= n/12+6 || (len(g.Moves) > 0 && !rng.Chance(20)) {
+			return
+		}
+		p, err := position.NewPositionFen(g.P.StringFen())
+		if err != nil || p == nil {
+			return
+		}
+		npos++
+		fen := p.StringFen()
+		legal := wk.legalMoves(p)
+		for _, m := range legal {
+			if !rng.Chance(40) && m.MoveType() == Normal {
+				continue
+			}
+			us := m.StringUci()
+			emit(fen, us, false, mgn.GetMoveFromUci(p, us))
+			emit(fen, strings.ToLower(us), false, mgn.GetMoveFromUci(p, strings.ToLower(us)))
+			for _, over := range []bool{false, true} {
+				san := sanOf(p, m, legal, over) + []string{"", "+", "#", "!?"}[rng.Intn(4)]
+				emit(fen, san, true, mgn.GetMoveFromSan(p, san))
+			}
+		}
+		for _, junk := range []string{"", "e2e4x", "xe2e4", "e4=N", "Kg1", "0-0", "O-O=Q", "KO-O", "Nxf3", "e2e5", "a7a8", "a7a8q", "a7a8k", "Qd4", "Ne5", "1. e4", " e2e4", "e2e4 "} {
+			emit(fen, junk, true, mgn.GetMoveFromSan(p, junk))
+			emit(fen, junk, false, mgn.GetMoveFromUci(p, junk))
+		}
+	})
+	w.WriteString("].\nDefinition MN := Eval vm_compute in (notation_mismatches ncases).\nPrint MN.\n")
 	rep.Distinct = rep.Cases
 	rep.Sample(map[string]interface{}{"CreateMoveValue(e2,e4,Normal,Knight,-10000)": uint32(CreateMoveValue(SqE2, SqE4, Normal, Knight, -10000))})
 	return rep.Emit()
